@@ -7,5 +7,5 @@ for c in $IDS; do
   s=$(date +%s)
   out=$(/venv/bin/python verify.py $c --tier $TIER 2>&1 | grep -v conda); rc=${PIPESTATUS[0]}
   e=$(date +%s)
-  echo "$c rc=$? wall=$((e-s))s $(echo "$out" | grep -c '^VIOLATION') violations, $(echo "$out" | grep -c '^KNOWN-FINDING') known :: $(echo "$out" | tail -1)"
+  echo "$c rc=$rc wall=$((e-s))s $(echo "$out" | grep -c '^VIOLATION') violations, $(echo "$out" | grep -c '^KNOWN-FINDING') known :: $(echo "$out" | tail -1)"
 done
